@@ -78,10 +78,14 @@ func (e *Env) roundsUntil(prop string, a *Agg, budget time.Duration, minRounds i
 			if j.Err != nil {
 				return nil, harnessErr("job %s %s from=%d: %v\n%s", j.World, j.Variant, j.From, j.Err, j.Stderr)
 			}
-			if j.ExitCode != 0 {
+			// exit code 3: the process abandoned a history whose library call
+			// did not return (reported as a violation in its last result) and
+			// did not execute the remaining indices of the job
+			abandoned := j.ExitCode == 3 && len(j.Results) > 0
+			if j.ExitCode != 0 && !abandoned {
 				return nil, harnessErr("job %s %s from=%d exited %d:\n%s", j.World, j.Variant, j.From, j.ExitCode, j.Stderr)
 			}
-			if len(j.Results) != j.N {
+			if len(j.Results) != j.N && !abandoned {
 				return nil, harnessErr("job %s %s from=%d produced %d of %d results:\n%s", j.World, j.Variant, j.From, len(j.Results), j.N, j.Stderr)
 			}
 			for _, r := range j.Results {
